@@ -882,6 +882,22 @@ def weave(fn, sc, log, lost, unit_rewrites=(), expected_locals=None):
             lost.append(f'{sc.name}: anchor #{nth} /{pat}/ not found ({len(hits)} matches)')
             continue
         ns, idx, n = hits[nth - 1]
+        if where == 'replace':
+            # R9 is a pure restructuring: the sidecar must not restate the statement it wraps.  `$0` = the statement as it is in
+            # /repo (after the rewrites), `$OK` = the argument E of `Ok(E)` / `return Ok(E);`.  A replacement that uses neither would
+            # substitute hand-written text for repository code and is refused.
+            stmt = ' '.join(t.strip() for _, t in flatten([n]) if not t.strip().startswith('//#'))
+            m_ok = re.match(r'^(?:return\s+)?Ok\((.*)\)\s*;?$', stmt, re.S)
+            joined = '\n'.join(text)
+            if '$OK' in joined:
+                if not m_ok:
+                    lost.append(f'{sc.name}: //@replace uses $OK but the statement `{stmt[:60]}` is not `Ok(..)`')
+                    continue
+                text = [ln.replace('$OK', m_ok.group(1)) for ln in text]
+            elif '$0' in joined:
+                text = [ln.replace('$0', stmt) for ln in text]
+            else:
+                raise ExtractionError(f'{sc.origin}: //@replace /{pat}/ must contain $0 or $OK (the replaced statement itself is always taken from /repo)')
         new = Node('//# @props\n' + '\n'.join(text) + '\n//# @auto')
         if where == 'before':
             ns.insert(idx, new)
